@@ -136,6 +136,16 @@ def run_impl(abi, case):
         except KeyError:
             out["refusal_unjustified"] = False
         return out
+    # the patch gets as many scratch registers as it asked for, all different, none of them one it reads or clobbers
+    got = [r.name for r in regs.scratch_registers]
+    named = set()
+    for r in list(case["clobbers"]) + list(case["reads"]):
+        try:
+            named.add(abi.get_register(r).name)
+        except KeyError:
+            pass
+    if len(got) != case["scratch"] or len(set(got)) != len(got) or set(got) & named:
+        out["short_scratch"] = "asked for %d scratch registers (reads %s, clobbers %s), got %s" % (case["scratch"], sorted(case["reads"]), sorted(case["clobbers"]), got)
     out["alloc"] = {
         "clobbered": [r.name for r in regs.clobbered_registers],
         "scratch": [r.name for r in regs.scratch_registers],
@@ -425,6 +435,8 @@ def flush(ctx, pending):
                 sig = re.sub(r"-?\d+", "N", f)
                 ctx.violation("C16:%s:%s" % (case["abi"], sig), "%s with %s: %s" % (case["abi"], {k: case[k] for k in ("flags", "clobbers", "scratch", "reads", "align", "preserve", "leaf")}, f), case)
             continue
+        if impl.get("short_scratch"):
+            ctx.violation("C16:scratch-registers-not-as-requested", "%s: %s" % (case["abi"], impl["short_scratch"]), case)
         # correspondence with the Lean generator
         if "alloc_err" in impl or "alloc_err" in a:
             if impl.get("refusal_unjustified"):
